@@ -199,6 +199,8 @@ def meta_to_job(prog: dict, meta: dict) -> dict | None:
         return {"kind": "redeliver", "prog": prog, "cases": [(meta["victim"], meta["after"])],
                 "opts": {"restart": meta.get("restart", False), "reset_bloom": meta.get("reset", False),
                          "trust": meta.get("trust", False)}}
+    if k == "pollcrash":
+        return {"kind": "pollcrash", "prog": prog, "cases": [meta["times"]]}
     if k == "signal-crash":
         return {"kind": "signal-crash", "prog": prog, "cases": [(meta["signal_at"], meta["crash_at"])],
                 "pers": meta.get("pers", True), "late_expire": meta.get("late_expire", False)}
